@@ -79,9 +79,28 @@ const char *rtosc_match_path(const char *pattern,
         if(*pattern == ':' && !*msg)
             return *path_end = msg, pattern;
         else if(*pattern == '{') {
-            pattern = rtosc_match_options(pattern, &msg);
-            if(!pattern)
-                return NULL;
+            //Try the alternatives in order. An alternative is only taken if
+            //the remaining pattern matches behind it, otherwise the next one
+            //is tried (e.g. "{a,ab}c" has to match "abc")
+            const char *rest = pattern;
+            while(*rest && *rest != '}') rest++;
+            if(*rest == '}')
+                rest++;
+            const char *alt = pattern+1;
+            while(1) {
+                const char *m = msg;
+                while(*alt && *alt != ',' && *alt != '}' && *alt == *m)
+                    ++alt, ++m;
+                if(*alt == ',' || *alt == '}') {
+                    const char *res = rtosc_match_path(rest, m, path_end);
+                    if(res)
+                        return res;
+                }
+                while(*alt && *alt != ',' && *alt != '}') ++alt;
+                if(*alt != ',')
+                    return NULL;
+                ++alt;
+            }
         } else if(*pattern == '*') {
             //advance message and pattern to '/' or ':' and '\0'
             while(*pattern && *pattern != '/' && *pattern != ':')
